@@ -9,7 +9,7 @@ from __future__ import annotations
 
 import io
 
-from . import impl
+from . import envs, impl
 
 SCRIPT = """text = {text!r}
 kwargs = {kwargs}
@@ -30,14 +30,18 @@ sys.exit(0 if got in acceptable else 1)
 def compile_probe(src):
     ns = {}
     exec(compile(src, "<probe>", "exec"), ns)  # noqa: S102 - our own constant source
+    ns["probe"].__src__ = src  # travels into environment cases (mc/envs.py)
     return ns["probe"]
 
 
 def run_probe(probe, text, **kw):
     try:
-        return probe(impl.P.Chart.from_file(io.StringIO(text), **kw))
+        got = probe(impl.P.Chart.from_file(io.StringIO(text), **kw))
     except Exception as e:  # noqa: BLE001
-        return ["raises", type(e).__name__]
+        got = ["raises", type(e).__name__]
+    if envs.STRIDE:
+        envs.after_probe(probe, text, got, kw)  # E1-M: every STRIDE-th case again under every environment
+    return got
 
 
 def script(text, probe_src, acceptable, kwargs_src="{}"):
@@ -63,6 +67,8 @@ def report(ctx, key, text, probe_src, acceptable, got, msg, extra_case=None, kwa
 
 
 def replay_text_case(case, probe, key, probe_src, msg="replayed case still fails"):
+    if "env" in case:
+        return envs.replay_case(case, probe)
     if case.get("probe_src"):
         probe = compile_probe(case["probe_src"])
     if "warm" in case:
